@@ -11,7 +11,9 @@ P = {
          "under the index/spec correspondence kvrel, which holds initially, is re-established by every Commit (any buckets, rotations) "
          "and survives reopen; the B+ tree leaf-chain walks equal filters of the live pairs (IndexFacts). Tie: every call of generated "
          "histories (both RAM index modes, FileIO/MMap, small segments, TTLs on both sides of expiry, multi-level trees) is executed on "
-         "the real library and compared with the extracted model and with the L0 specification.",
+         "the real library and compared with the extracted model and with the L0 specification. Whole histories: KVHistory.history_kvrel / "
+         "history_reads_refine_any_mode run engine and specification side by side on ANY list of calls. Translation tie (code level, "
+         "C01_code.v): IsExpired and compare as translated from /repo on every run equal the model's is_expired (uint64 wrap) and bcompare.",
          "The tree shape of the in-memory B+ tree is abstracted to its sorted leaf chain (covered by the tie with 48-key buckets). "
          "Hypothesis kv_ok: timestamp+TTL < 2^64 (uint64 wrap of IsExpired)."),
  "C02": ("Rocq theorems (Sparse.v/SparseFacts.v): Get, RangeScan/GetAll and PrefixScan computed segment by segment (active index, "
@@ -23,18 +25,26 @@ P = {
  "C03": ("Rocq theorems: PrefixScan/PrefixSearchScan on any sorted index with any mix of live, deleted and expired records = skip offset "
          "live prefixed keys, keep matching ones, at most limit (kv_prefix_scan_spec); pages concatenate to the live keys "
          "(prefix_pages_complete). Tie: scan-heavy histories, multi-level trees and a paging sweep over contents x prefix x offset x limit, "
-         "each result compared with model and L0 spec.", "regexp verdicts are an oracle input (Go regexp evaluated by the harness over the key universe). "
+         "each result compared with model and L0 spec; binary keys and prefixes ending in 0xFF/0x00.", "regexp verdicts are an oracle input (Go regexp evaluated by the harness over the key universe). "
          "Sparse index mode is not modelled (see C02)."),
  "C04": ("Rocq theorems: applying/replaying records of bucket A leaves bucket_view of every B<>A unchanged (commit_index_frame, "
          "replay_frame), same key in two buckets kept apart. Tie: histories over adversarial names ('', a, ab, abc; keys bc, c, ...) for all "
-         "four structures in the RAM modes against model and per-bucket L0 spec.",
+         "four structures in the RAM modes against model and per-bucket L0 spec. Translation tie (C04_code.v): getNewKey as translated "
+         "from /repo is bucket ++ key, with the colliding pair of known finding F18 as a code-level example.",
          "RAM index modes only: the sparse mode keys its index by bucket++key (known ambiguity, see C02 note)."),
  "C05": ("Rocq theorems: LRange/LTrim/LRem/LSet/push/pop of the model (written after ds/list) equal a Redis-style specification for all "
          "64-bit arguments; logged encodings count|value, key|index round-trip (values with '|'). Tie: transaction-level and ds-level "
-         "(exported list type) random sequences incl. +-2^63 against model and spec.", ""),
+         "(exported list type) random sequences incl. +-2^63 against model and spec; argument buffers are reused with spare capacity. "
+         "Translation tie (C05_code.v, 18 theorems): every function of ds/list/list.go, re-translated to Gallina from /repo on every run, "
+         "equals its model function for all maps of lists shorter than 2^62, all keys and all 64-bit indexes/counts; hence the CODE of "
+         "LRange/LRem/Ltrim is Redis LRANGE/LREM/LTRIM and no slice expression, index, make or loop of list.go can panic or diverge.",
+         "The translator's Go semantics (GoSem.v: 64-bit wrap, slices as values with tracked local aliasing, loops on fuel, nil test on an "
+         "empty slice as an oracle) are trusted."),
  "C06": ("Rocq theorems: the set model behaves like finite sets (membership, no duplicates, diff/union, canonical results), SMove as "
          "logged = Set.SMove. Tie: all 14 set calls through transactions and the exported type; SPop's random choice is an oracle input "
-         "checked for membership.", "Go map iteration order abstracted (results compared sorted)."),
+         "checked for membership. Translation tie (C06_code.v, 13 theorems): every function of ds/set/set.go, re-translated from /repo on "
+         "every run, equals its model function for every iteration order of the Go maps.",
+         "Go map iteration order: an arbitrary permutation (quantified in the theorems); results compared sorted. GoSem.v trusted."),
  "C07": ("Rocq theorems: invariant zwf (strictly sorted by (score,key), unique keys) preserved by Put/Remove/pops/rank removal; rank, "
          "score-range (both directions, exclusive bounds, limit), rank-range, peeks characterised; no query returns a non-member. Tie: "
          "all sorted-set calls through transactions and directly on ds/zset under many random level layouts.",
@@ -46,27 +56,37 @@ P = {
  "C09": ("Rocq theorems: for ANY file content the segment scan of Open ends without the fatal error (scan_never_fails), recovers appended "
          "records exactly incl. an exactly full segment, stops at a torn tail; reachable directories reopen. Fault enumeration: every "
          "mutation point x torn prefixes of generated workloads is rebuilt from the recorded trace and opened with the real Open under "
-         "alternating RWMode/StartFileLoadingMode; recovered databases are continued (commits, rotation, clean reopen).",
-         "File-system semantics (what a completed/torn write leaves) are a stated model; RAM index modes."),
+         "alternating RWMode/StartFileLoadingMode; recovered databases are continued (commits, rotation, clean reopen); the same enumeration "
+         "in the sparse index mode (crashsparse); histories whose transactions pop/remove/trim structures they already modified, then reopen.",
+         "File-system semantics (what a completed/torn write leaves) are a stated model; the theorems are about the RAM index modes. "
+         "KNOWN FINDING F32: in HintBPTSparseIdxMode a crash inside a Commit that rewrites index or bucket-meta files is not recoverable "
+         "(reported as KNOWN-FINDING, attributed to exactly those crash points)."),
  "C10": ("Rocq theorems: a crash leaving k<n records of the in-flight transaction recovers the pre-transaction indexes, k=n the "
          "post-commit ones (crash_prefix_invisible, crash_complete_visible); records without marker never influence recovery; unique ids. "
          "Fault enumeration on the real code as in C09: the recovered observation must equal the live observation before or after the "
-         "in-flight transaction.", "Hypothesis made explicit: a torn record does not decode to a record (no 32-bit checksum can exclude "
+         "in-flight transaction; the same enumeration in the sparse index mode (crashsparse).", "KNOWN FINDING F32 (sparse mode, see C09). Hypothesis made explicit: a torn record does not decode to a record (no 32-bit checksum can exclude "
          "it for all contents; proved for single-byte corruption and truncation at EOF)."),
  "C11": ("Rocq theorems: on a trace that syncs after every write, at every crash point each file's durable content is its volatile content "
          "minus at most the record whose write was in flight (power_loss_loses_at_most_inflight_write), so every power-loss image is a "
          "process-crash image of C10. Tie: the real trace of every run is checked against that protocol predicate and durable images "
-         "(unsynced writes dropped / kept / torn) are opened with the real Open.",
+         "(unsynced writes dropped / kept / torn) are opened with the real Open; power-loss images at every mutation point of Merge "
+         "(mergepower) and in the sparse index mode (powersparse). KNOWN FINDING F32 (sparse mode, see C09).",
          "Assumes, as the property states, that a sync also makes the directory entry durable; removals are treated as durable (their "
          "loss concerns Merge)."),
  "C12": ("Rocq theorems: no API call changes the shared world (do_op_world); rolled-back, read-only, oversize and write-faulted "
          "transactions leave disk/indexes/committed ids unchanged (TxFacts); after a failed Commit and reopen the indexes are those before "
          "(failed_commit_noop). Tie: abort-heavy histories plus fault injection at every mutation point of Commit (partial writes), with "
-         "observation before/after and after reopen, vs model and spec.", "A sync error or an error reported after a complete write is "
+         "observation before/after and after reopen (every other time with a later transaction committing into the same segment first), "
+         "vs model and spec.", "A sync error or an error reported after a complete write is "
          "'in doubt': only all-or-nothing is required (as the property says)."),
  "C13": ("Rocq theorems: every mutating structure call validated against the begin state returns the serial result and logs records whose "
          "application yields the serial state (ds_write_refines_corrected); Commit applies records in call order; KV commit is serial "
-         "(commit_kvrel). C13_F21_refuted: the witness of known finding F21. Tie: mixed and 8-22-call transactions vs model and serial L0 "
+         "(commit_kvrel). HistoryRefine.history_refines: engine and specification side by side on ANY list of calls of the whole API; for "
+         "every history satisfying the executable guard hist_guard_corrected (no read/pop/validation of a structure or key/value bucket "
+         "that the same open write transaction already modified) EVERY call returns exactly the specification's result and the final "
+         "states coincide. Translation tie (C13_code.v, 34 theorems): the transaction layer for key/value writes, lists and sets (tx.go put/Put/"
+         "PutWithTimestamp, Delete, all of tx_list.go and tx_set.go), re-translated to Gallina from /repo on every run, equals the engine "
+         "model's do_op: same result, same records appended to the pending writes, indexes untouched. C13_guard_is_needed / C13_kv_guard_is_needed / C13_F21_refuted: witnesses of known finding F21. Tie: mixed and 8-22-call transactions vs model and serial L0 "
          "spec; read-after-write histories must equal the model and are attributed to F21 only when the failing call reads a structure "
          "written earlier in the same transaction.", "KNOWN FINDING F21 (read-your-own-writes) is reported as KNOWN-FINDING."),
  "C14": ("Rocq theorems (ConcFacts, generic in state and result type, no bound on threads/transactions/steps): every interleaving the "
@@ -85,7 +105,8 @@ P = {
          "mode x RWMode.", "PARTIAL as C14 for the runtime part; filesystem.CopyDir is trusted."),
  "C15": ("Rocq theorems on the Merge model (Merge.v): dead and uncommitted records are never rewritten; refused Merge is a no-op; key/value "
          "contents preserved by Merge (MergeFacts, see evidence for the exact statements). Tie: histories with Merge at arbitrary points, "
-         "repeatedly, more writes, reopens, both RAM modes: impl = Merge model = L0 spec (Merge is the identity).",
+         "repeatedly, more writes, reopens, both RAM modes: impl = Merge model = L0 spec (Merge is the identity); I/O errors injected at every "
+         "mutation point of Merge. Translation tie (C15_code.v): isFilterEntry and IsExpired as translated from /repo equal the model's filter.",
          "KNOWN FINDINGS F14 (lists) and F30 (existence of empty structures) are reported as KNOWN-FINDING and attributed narrowly."),
  "C16": ("Fault enumeration: every mutation point inside Merge (create, truncate, each record write with torn prefixes, sync, remove) of "
          "generated pre-merge histories over key/value data, sets and sorted sets is rebuilt, opened with the real Open and compared with the "
@@ -97,15 +118,20 @@ P = {
  "C20": ("Rocq theorems: no call of the engine model yields the panic outcome in any world (step_no_panic); LRange/LTrim slice bounds "
          "are in range for all 64-bit arguments. Tie: boundary-heavy fuzzing of every exported method (NaN/Inf, +-2^63, invalid regexps, "
          "closed database, finished transactions) with panics recovered per call; list/zset/ds-level runs with extreme integers vs the "
-         "panic-free model.", "B+ tree node code, skiplist pointer code, regexp and strconv are covered by the fuzz tie only."),
+         "panic-free model. Translation tie (C05_code.v): no function of ds/list/list.go as translated from /repo can panic or diverge.",
+         "B+ tree node code, skiplist pointer code, regexp and strconv are covered by the fuzz tie only."),
  "C21": ("Rocq theorems over the byte-exact codec model: round trip of data entries (both RW modes, any position), root-index and "
          "bucket-meta records; CRC-32 detects every corruption confined to one byte at any length; truncation under FileIO reads as EOF. "
-         "Flips inside size fields / MMap truncation are enumerated against the real decoder on every run.", ""),
+         "Flips inside size fields / MMap truncation are enumerated against the real decoder on every run. Translation tie (C21_code.v): "
+         "Entry.Encode/Size/IsZero/GetCrc, readMetaData, BPTreeRootIdx.Encode and BucketMeta.Encode, re-translated to Gallina from /repo on "
+         "every run, equal the model's encode_entry / field offsets / checksums for every record Tx.put can build, with a code-level "
+         "round trip of the header.", "DataFile.ReadAt goes through the RWManager interface and is tied by the codec suite only; GoSem.v trusted."),
  "C22": ("Rocq theorems: mode_refused (= checkEntryIdxMode) refuses exactly when the sparse-ness of creator and opener differ; RAM<->RAM "
          "reopen rebuilds identical indexes. Tie: all 9 mode pairs x directory states with a byte digest of the directory before/after a "
          "refused Open and identical observations for accepted ones.", ""),
 }
 TECH = "Rocq (Coq 8.16.1) proof over an executable Gallina model + differential correspondence model vs code"
+TIED = {"C01", "C04", "C05", "C06", "C12", "C13", "C15", "C20", "C21"}
 cat = {"C09": "proof", "C16": "fault_enumeration"}
 checks = []
 for pid in sorted(P):
@@ -114,11 +140,12 @@ for pid in sorted(P):
                        evidence_file="evidence/%s.json" % pid, replay_cmd_template="./check replay {path}", engine="rocq-model",
                        level_claimed=dict(category="proof", text=text, design_ref="DESIGN.md section 7 " + pid),
                        level_note=TB + note,
-                       technique=TECH + (" + crash/fault enumeration on the real code" if pid in ("C09", "C10", "C11", "C12", "C16") else "")))
+                       technique=TECH + (" + Go->Gallina translation of the source re-checked against the model on every run" if pid in TIED else "")
+                       + (" + crash/fault enumeration on the real code" if pid in ("C09", "C10", "C11", "C12", "C16") else "")))
 props = [json.loads(l)["id"] for l in open(os.path.join(ROOT, "properties.jsonl"))]
 na = [dict(property_id=p, reason=NA.get(p, "check under construction in this session (every property is intended to be claimed)"))
       for p in props if p not in P] if (NA := {}) is not None else []
-commits = subprocess.run(["git", "-C", "/repo", "log", "--format=%h", "--grep=^verif hooks"], capture_output=True, text=True).stdout.split()
+commits = subprocess.run(["git", "-C", "/repo", "log", "--format=%h", "--grep=^verif hook"], capture_output=True, text=True).stdout.split()
 m = dict(version=1, setup_cmd="./setup.sh",
          hooks=dict(guard="verif", enable="go build -tags verif (harness module replaces github.com/xujiajun/nutsdb => /repo)",
                     baseline_off_cmd="cd /repo && GOFLAGS=-mod=mod GOPROXY=off GOSUMDB=off GOTOOLCHAIN=local go test -vet=off -count=1 ./...",
@@ -126,6 +153,8 @@ m = dict(version=1, setup_cmd="./setup.sh",
          checks=checks, not_applicable=na,
          engines=[dict(name="rocq-model", path="coq/", serves_properties=sorted(P),
                        kind_free_text="Rocq (Coq 8.16.1) development: executable Gallina model + theorems; properties/Cxx.v re-checked on every run"),
+                  dict(name="translation", path="translator/ + coq/gosem/ + coq/generated/ + coq/properties_code/", serves_properties=sorted(TIED),
+                       kind_free_text="Go -> Gallina translator (go/parser, go/types) run on /repo on every check; GoSem.v states the Go semantics assumed; equivalence theorems between the translated functions and the model functions; code-level property files Cxx_code.v"),
                   dict(name="correspondence", path="harness/ + driver/", serves_properties=sorted(P),
                        kind_free_text="Go harness driving /repo (-tags verif) + OCaml driver running the extracted model and the L0 specification on the same calls; line-by-line comparison of projected observables; crash/fault enumeration")],
          notes="See DESIGN.md. known_findings.json lists genuine defects: 'fixed' entries (repaired by fix: commits in /repo) and 'findings' reported as KNOWN-FINDING.")
